@@ -40,8 +40,9 @@ type MCConfig struct {
 	NodeSets [][]Vec // alternatives a refresh may report (node availabilities)
 	Initial  int     // >= 0: the first inventory fetch is answered with NodeSets[Initial] before the enumerated part; -1: not
 	Slots    []Slot
-	Depth    int // enumerated operations (quick)
-	DepthT   int // enumerated operations (thorough); 0 = Depth
+	Lookup   bool // lookup(slot) is part of the alphabet
+	Depth    int  // enumerated operations (quick)
+	DepthT   int  // enumerated operations (thorough); 0 = Depth
 }
 
 func (c *MCConfig) depth(tier string) int {
@@ -59,6 +60,7 @@ const (
 	opNotDeployed
 	opRefresh
 	opRefreshErr
+	opLookup // lookup(slot): only in configurations with Lookup set
 )
 
 // Op is one letter of the alphabet. Arg: slot (reserve, deployed, not-deployed), order (unreserve), node set (refresh).
@@ -83,6 +85,8 @@ func (o Op) String() string {
 		return fmt.Sprintf("refresh(N%d)", o.Arg)
 	case opRefreshErr:
 		return "refresh(err)"
+	case opLookup:
+		return fmt.Sprintf("lookup(s%d)", o.Arg)
 	}
 	return "?"
 }
@@ -296,6 +300,11 @@ func (h *state) menu() []Op {
 	for s := range h.cfg.Slots {
 		m = append(m, Op{opDeployed, s}, Op{opNotDeployed, s})
 	}
+	if h.cfg.Lookup {
+		for s := range h.cfg.Slots {
+			m = append(m, Op{opLookup, s})
+		}
+	}
 	if h.latestCall() != nil {
 		for j := range h.cfg.NodeSets {
 			m = append(m, Op{opRefresh, j})
@@ -421,6 +430,21 @@ func (h *state) fire(op Op, forced bool) {
 			rec.done = true
 			h.unlock()
 		})
+	case opLookup:
+		slot := h.cfg.Slots[op.Arg]
+		h.goClient(func() {
+			vs.Label(op.String())
+			r, err := h.inv.Lookup(orderID(slot.Order), h.specs[slot.Group.Name])
+			found := ""
+			if err == nil {
+				found = fmtGroup(r.Resources())
+			}
+			h.lock()
+			rec.err = errName(err)
+			rec.atGrant = found // (for a lookup: rendering of the reservation that was found)
+			rec.done = true
+			h.unlock()
+		})
 	case opDeployed, opNotDeployed:
 		slot := h.cfg.Slots[op.Arg]
 		status := event.ClusterDeploymentDeployed
@@ -515,6 +539,16 @@ func (h *state) sameTarget(a, b int) bool {
 	return sa.Order == sb.Order && sa.Group.Name == sb.Group.Name
 }
 
+// committedRendering: how fmtGroup prints the reservation a reserve(slot) creates (oracle's own commit scaling).
+func (h *state) committedRendering(slot int) string {
+	g := h.cfg.Slots[slot].Group
+	cg := GroupSpec{Name: g.Name}
+	for _, u := range g.Units {
+		cg.Units = append(cg.Units, UnitSpec{V: commitVec(h.cfg.Commit, u.V), Count: u.Count, Endpoints: u.Endpoints})
+	}
+	return fmtGroup(realGroup(cg))
+}
+
 func (h *state) opsUpTo(k int) string {
 	var p []string
 	for i := 0; i <= k && i < len(h.log); i++ {
@@ -594,6 +628,11 @@ func (h *state) answer(rec *opRec, asOf int) string {
 		return rec.status.String()
 	case opRefresh, opRefreshErr:
 		return "-"
+	case opLookup:
+		if rec.err == "" {
+			return "found:" + rec.atGrant
+		}
+		return "err:" + rec.err
 	default:
 		if rec.err == "" {
 			return "ok"
@@ -754,6 +793,35 @@ func (h *state) check(r *vs.Result) (string, []string) {
 				}
 			}
 			cands = dedupe(next)
+		case opLookup:
+			// found <=> a granted, unreleased reservation of exactly this order (full id) and group is outstanding;
+			// what is found is that reservation (the committed amounts of the slot's group, oracle's scaling)
+			var keep []*cand
+			found := rec.err == ""
+			for _, c := range cands {
+				has := false
+				for _, m := range c.res {
+					if h.sameTarget(m.slot, rec.op.Arg) {
+						has = true
+					}
+				}
+				if has == found {
+					keep = append(keep, c)
+				}
+			}
+			switch {
+			case !found && rec.err != "reservation not found":
+				v.add("lookup-failed", "after [%s] %s returned %q", h.opsUpTo(k), rec.op, rec.err)
+			case len(keep) == 0 && found:
+				v.add("lookup-found-unknown-reservation", "after [%s] %s found %s although no granted, unreleased reservation of that order and group exists", h.opsUpTo(k), rec.op, rec.atGrant)
+			case len(keep) == 0:
+				v.add("lookup-missed-outstanding-reservation", "after [%s] %s returned %q although the reservation of that order and group was granted and not released", h.opsUpTo(k), rec.op, rec.err)
+			default:
+				cands = keep
+				if want := h.committedRendering(rec.op.Arg); found && rec.atGrant != want {
+					v.add("lookup-wrong-reservation", "after [%s] %s found %s; the reservation of that order holds %s", h.opsUpTo(k), rec.op, rec.atGrant, want)
+				}
+			}
 		case opRefresh:
 			inv = cfg.NodeSets[rec.op.Arg]
 			reported = true
